@@ -102,7 +102,19 @@ def judge_spec(ctx, meta, impl, model):
 
 def generate(ctx):
     yield from spec_header_cases(ctx)
+    yield from mszip_cross_block(ctx)
     yield from plan_cases(ctx)
+
+def mszip_cross_block(ctx):
+    """later MSZIP blocks opening with matches that reach into the previous block (straddling the 32768 boundary, at the far
+    end of the window, one-byte runs across it), short and long, under the parameter combinations"""
+    rng = ctx.rng
+    cases = list(S.mszip_cross_block_cases(rng))
+    if ctx.tier == "quick": cases = cases[:36]
+    for (label, cab, kw, plain) in cases:
+        buf, fix = rng.choice(BUFS), rng.choice([0, 1])
+        yield [f"file x.cab {cab.hex()}", "new cab", f"param i0 DECOMPBUF {buf}", f"param i0 FIXMSZIP {fix}", "open i0 x.cab", "extract i0 h0 0 o0", "close i0 h0", "destroy i0"], \
+              dict(family="mszip.cross-block", label=label, want=digest(plain), buf=buf, fix=fix, nontrivial=True)
 
 def plan_cases(ctx):
     rng = ctx.rng
@@ -195,6 +207,15 @@ def judge(ctx, meta, impl, model):
         return [Finding("violation", "well-formed cabinet: implementation " + crash[0])]
     if meta["family"] == "cab.spec-headers":
         return judge_spec(ctx, meta, impl, model)
+    if meta["family"] == "mszip.cross-block":
+        ex = [C.kv(b[0]) for b in impl if b[0].startswith("extract ")]
+        if not ex or ex[0].get("st") != "0" or ex[0].get("out") != meta["want"]:
+            fs.append(Finding("violation", f"MSZIP folder whose second block opens with a match into the previous block ({meta['label']}): st={ex[0].get('st') if ex else None} out={ex[0].get('out') if ex else None}, the data is {meta['want']}"))
+        if model is not None and not any("unsupported" in b[0] for b in model):
+            em = [C.kv(b[0]) for b in model if b[0].startswith("extract ")]
+            if ex and em and (ex[0].get("st"), ex[0].get("out")) != (em[0].get("st"), em[0].get("out")):
+                fs.append(Finding("mismatch", f"model and implementation differ on {meta['label']}: impl {ex[0].get('st')}/{ex[0].get('out')} model {em[0].get('st')}/{em[0].get('out')}"))
+        return fs
     mem = meta["members"]
     ex = [C.kv(b[0]) for b in impl if b[0].startswith("extract ")]
     if not meta["search"]:
